@@ -18,6 +18,7 @@ import (
 	"net"
 	"os"
 	"strings"
+	"time"
 
 	rhp4 "go.sia.tech/coreutils/rhp/v4"
 	"verif/harness/internal/hx"
@@ -169,12 +170,18 @@ func runC10(c *hx.Ctx) {
 	cat := w.catalogue(c.Thorough)
 	var cases []string
 	okBy := map[string]int{}
+	spent := map[string]time.Duration{}
 	for _, tc := range cat {
 		name := tc.rpc + "/" + tc.scen + "/" + tc.corr
 		if only != "" && name != only {
 			continue
 		}
+		t0 := time.Now()
 		r := tc.run()
+		spent[tc.rpc] += time.Since(t0)
+		if d := time.Since(t0); d > time.Second {
+			res.Notes = append(res.Notes, fmt.Sprintf("slow case %s: %v (client ok=%v err=%q) host notes %v", name, d, r.ok, r.errStr, r.x.Notes))
+		}
 		if r.panicked { // neither Ok nor Err: no outcome of the model matches
 			r.coq = strings.Replace(r.coq, " OErr", " OPanic", 1)
 		}
@@ -200,6 +207,9 @@ func runC10(c *hx.Ctx) {
 		if len(res.Samples) < 5 && r.nontrivial && (len(cases)%97 == 1) {
 			res.Sample(map[string]any{"case": name, "client_ok": r.ok, "client_error": r.errStr, "coq_case": r.coq})
 		}
+	}
+	for k, v := range spent {
+		res.CountN("ms-by-rpc:"+k, int(v.Milliseconds()))
 	}
 	for k, v := range okBy {
 		res.CountN("ok-by-rpc:"+k, v)
